@@ -2714,7 +2714,8 @@ class t2data(object):
                                 bc['faces'].append({"cells": [cell_index],
                                                     "normal": list(normal)})
                     normals = np.array([spec['normal'] for spec in bc['faces']])
-                    if np.isclose(normals, normals[0], rtol = 1.e-8).all():
+                    # (no faces if all neighbours are boundary blocks too)
+                    if bc['faces'] and np.isclose(normals, normals[0], rtol = 1.e-8).all():
                         allcells = []
                         for spec in bc['faces']:
                             allcells += spec['cells']
